@@ -2,7 +2,10 @@
 tree on many queries in worker processes and return, per query, the spans the model reported.
 
 run(tasks, nproc, timeout) -> list aligned with `tasks` of
-    ('ok', [(start, end, text, type_name), ...], n_none)   results in the order the API returned them
+    ('ok', [(start, end, text, type_name), ...], n_none, swallowed)   results in the order the API returned them;
+                                                            swallowed = None | [stage, exception type, message]: the
+                                                            exception `DateTimeModel.parse` caught and dropped
+                                                            (`except Exception: pass`; recorded for DateTime only)
     ('timeout',)                                            the per-query wall-clock guard fired (dropped, counted)
     ('error', 'ExcType: message')                           Model.parse itself raised
 task = (recognizer, model_type, culture, query, reference-or-None)
@@ -51,12 +54,20 @@ def _run_chunk(args):
         except Exception as e:                        # pragma: no cover
             out.append((i, ('error', 'get_model %s: %s' % (type(e).__name__, e))))
             continue
+        swl = None
+        if rec == 'DateTime':
+            try:
+                from . import dtpipe
+                swl = dtpipe.instrument(model)     # notes what the model's `except Exception: pass` swallows
+                del swl[:]
+            except Exception:
+                swl = None
         signal.setitimer(signal.ITIMER_REAL, timeout, 1.0)   # repeats: a raise swallowed by a __del__ fires again
         try:
             rs = model.parse(q, ref) if rec == 'DateTime' else model.parse(q)
             signal.setitimer(signal.ITIMER_REAL, 0)
             spans = [(r.start, r.end, r.text, r.type_name) for r in rs if r is not None]
-            out.append((i, ('ok', spans, sum(1 for r in rs if r is None))))
+            out.append((i, ('ok', spans, sum(1 for r in rs if r is None), list(swl[0]) if swl else None)))
         except QueryTimeout:
             signal.setitimer(signal.ITIMER_REAL, 0)
             out.append((i, ('timeout',)))
@@ -185,8 +196,8 @@ def run(tasks, nproc=16, timeout=10.0, cache=True):
         if hit is not None and len(hit) == len(tasks):
             LAST_STATS.clear()
             LAST_STATS.update({'cache': 'hit'})
-            return [tuple([r[0], [tuple(s) for s in r[1]], r[2]]) if r and r[0] == 'ok' else (tuple(r) if r else None)
-                    for r in hit]
+            return [tuple([r[0], [tuple(s) for s in r[1]], r[2], r[3] if len(r) > 3 else None]) if r and r[0] == 'ok'
+                    else (tuple(r) if r else None) for r in hit]
     bins = plan_bins(tasks, nproc)
     jobs = [(idxs, [tasks[i] for i in idxs], timeout) for idxs in bins]
     mpctx = multiprocessing.get_context('fork')
